@@ -172,10 +172,11 @@ def split_menu(n, tier):
 class MixSplit(Base):
     """config = (n chemicals used, outlets 'fresh'|'dirty'); action = ('ms', inlets, split)
     inlet = ('new', vector index, T index) | ('top',) | ('bottom',)"""
-    def __init__(self, name, hist=False, **kw):
-        super().__init__(name, **kw); self.hist = hist
+    def __init__(self, name, hist=False, phases=False, **kw):
+        super().__init__(name, **kw); self.hist = hist; self.phases = phases
 
     def _configs(self, tier):
+        if self.phases: return [(3,)]           # Water / Ethanol / Methanol: the package that flashes
         return [(3,), (6,), (1,)]
 
     def _build(self, config):
@@ -215,6 +216,15 @@ class MixSplit(Base):
             news = [('new', i, i % 2) for i in (1, 3 % len(vecs), (len(vecs) - 1))]
             inl = [(('top',), ('bottom',)), (('bottom',), ('top',)), (('top',),), (('bottom',),)]
             inl += [(x,) for x in news] + [(('top',), x) for x in news] + [(x, ('bottom',)) for x in news] + [(news[0], ('top',), ('bottom',))]
+            # several fresh liquid inlets (no outlet among them), and - where the package flashes (Water / Ethanol / Methanol) - a two-phase inlet alone, with an
+            # empty stream and with a liquid: the phase set of the inlets GROWS and SHRINKS between consecutive calls on the same outlets
+            if self.phases:
+                # the inlet phase set GROWS and SHRINKS between consecutive calls on the same outlets: a two-phase (flashed) inlet alone / with an empty stream /
+                # with a liquid / with the previous top, against one, two and three fresh liquid inlets and the outlets themselves
+                fl = ('flashed', 3, 0); empty = ('new', 0, 0)
+                inl = [(fl,), (fl, news[0]), (news[0], news[2]), (news[1],), (('top',), ('bottom',))]
+                if self._tier == 'thorough':
+                    inl += [(fl, empty), (('top',), fl), (news[2], news[1], news[0]), (('top',), news[0]), (news[0], ('bottom',))]
             sps = [('s', 0.25), ('s', 1.0), ('s', 0.0), ('v', tuple((0.0, 0.25, 1.0)[i % 3] for i in range(n)))]
             for c in inl:
                 for sp in sps: acts.append(('ms', c, sp))
@@ -227,11 +237,15 @@ class MixSplit(Base):
         N = len(PK6)
         ins = []; new_before = []
         for d in inl:
-            if d[0] == 'new':
+            if d[0] in ('new', 'flashed'):
                 v = vecs[d[1]]
                 s = tmo.Stream(None, thermo=st.th, T=TS[d[2]])
                 for i, x in enumerate(v):
                     if x: s.imol[PK6[i]] = x
+                if d[0] == 'flashed':          # a two-phase (g, l) inlet: the outlets become two-phase as well
+                    with warnings.catch_warnings():
+                        warnings.simplefilter('ignore')
+                        s.vle(V=0.5, P=101325.0)
                 ins.append(s); new_before.append((s, arr(s)))
             else:
                 ins.append(st.S[d[0]])
@@ -241,7 +255,7 @@ class MixSplit(Base):
         if sp[0] == 's': split = sp[1]; svec = np.full(N, sp[1])
         else:
             svec = np.zeros(N); svec[:n] = sp[1]; split = svec.copy()
-        match = dict(reuse=bool([d for d in inl if d[0] != 'new']), split=sp[0])
+        match = dict(reuse=bool([d for d in inl if d[0] in ('top', 'bottom')]), split=sp[0], two_phase_inlet=any(d[0] == 'flashed' for d in inl))
         r = call('mix_and_split', lambda: sep.mix_and_split(ins, st.S['top'], st.S['bottom'], split), match)
         top = arr(st.S['top']); bot = arr(st.S['bottom'])
         if isinstance(r, tuple) and r and r[0] == 'infeasible':
@@ -523,9 +537,13 @@ class Partition(Base):
 # vle / lle wrappers
 
 VFEEDS = [  # over the VLE package (Water, Ethanol, Propanol, N2, Glucose), T
-    ((1, 2.5, 0, 0, 0), 350.0), ((1, 1, 1, 0.375, 0.375), 340.0), ((2.5, 0, 0, 0, 0), 300.0), ((0.375, 1, 0, 1, 0), 360.0)]
+    ((1, 2.5, 0, 0, 0), 350.0), ((1, 1, 1, 0.375, 0.375), 340.0), ((2.5, 0, 0, 0, 0), 300.0), ((0.375, 1, 0, 1, 0), 360.0),
+    # feeds whose material sits in the GAS phase ('g'), and two-phase feeds ('gl' = flashed to V = 0.5 at 1 atm before the call); with and without a non-condensable
+    ((1, 2.5, 0, 0, 0), 400.0, 'g'), ((1, 1, 1, 0, 0), 400.0, 'g'), ((0.375, 1, 0, 1, 0), 400.0, 'g'), ((2.5, 0, 0, 0, 0), 400.0, 'g'),
+    ((1, 2.5, 0, 0, 0), 350.0, 'gl'), ((1, 1, 1, 0.375, 0), 340.0, 'gl')]
 VSPECS = [dict(T=360.0, P=101325.0), dict(T=300.0, P=101325.0), dict(T=400.0, P=101325.0), dict(V=0.5, P=101325.0), dict(V=0.0, P=101325.0),
-          dict(V=1.0, P=101325.0), dict(V=0.25, T=355.0), dict(P=101325.0, Q=0.0), dict(P=101325.0, Q=5e4), dict(P=50000.0, Q=-1e4)]
+          dict(V=1.0, P=101325.0), dict(V=0.25, T=355.0), dict(P=101325.0, Q=0.0), dict(P=101325.0, Q=5e4), dict(P=50000.0, Q=-1e4),
+          dict(V=0.0, T=350.0), dict(V=1.0, T=350.0), dict(V=0.0, P=2e5), dict(V=1.0, P=2e5)]      # end points at given T and at a second pressure
 LFEEDS = [  # over (Water, Ethanol, Octanol, Hexane)
     (20, 1, 20, 0), (2.5, 0.375, 1, 1), (1, 1, 0, 0), (1, 0, 2.5, 0), (0, 0, 1, 0)]
 
@@ -535,6 +553,7 @@ class Equil(Base):
         super().__init__(name, **kw); self.which = which; self.hist = hist
 
     def _configs(self, tier):
+        if self.hist: return [(self.which, 0)]       # history layers name the feed in every action; the configuration's feed is not used
         return [(self.which, f) for f in range(len(VFEEDS if self.which == 'vle' else LFEEDS))]
 
     def _build(self, config):
@@ -552,7 +571,7 @@ class Equil(Base):
             specs = range(len(VSPECS)) if not self.hist else ((0, 3, 7) if self._tier == 'quick' else (0, 1, 3, 6, 7, 8))
             for si in specs:
                 for ms in (0, 1):
-                    for f in ((None,) if not self.hist else ((0, 1, 3) if self._tier == 'quick' else (0, 1, 2, 3))):
+                    for f in ((None,) if not self.hist else ((0, 1, 3) if self._tier == 'quick' else (0, 1, 2, 3, 4, 8))):
                         acts.append(('vle', si, ms, f))
         else:
             full = not self.hist or self._tier == 'thorough'
@@ -570,13 +589,19 @@ class Equil(Base):
         if a[0] == 'vle':
             _, si, ms, f = a
             f = st.f if f is None else f
-            vec, T = VFEEDS[f]
-            feed = tmo.Stream(None, thermo=th, T=T)
+            vec, T, *ph = VFEEDS[f]
+            ph = ph[0] if ph else 'l'
+            feed = tmo.Stream(None, thermo=th, T=T, phase='g' if ph == 'g' else 'l')
             for i, x in enumerate(vec):
                 if x: feed.imol[chems[i]] = x
+            if ph == 'gl':
+                with warnings.catch_warnings():
+                    warnings.simplefilter('ignore')
+                    feed.vle(V=0.5, P=101325.0)
+            feed_type = type(feed)
             f0 = arr(feed); fp0 = phase_arrays(feed); TP0 = (feed.T, feed.P)
             spec = VSPECS[si]
-            match = dict(helper='vle', spec=tuple(sorted(spec)), ms=bool(ms))
+            match = dict(helper='vle', spec=tuple(sorted(spec)), ms=bool(ms), feed_phase=ph)
             r = call('vle', lambda: sep.vle(feed, st.S['a'], st.S['b'], multi_stream=st.S['ms'] if ms else None, **spec), match,
                      allowed=(RuntimeError, ValueError))
             names = ('vapor', 'liquid')
@@ -584,6 +609,7 @@ class Equil(Base):
             _, eff, tc, ms, f = a
             f = st.f if f is None else f
             feed = tmo.Stream(None, thermo=th)
+            feed_type = type(feed)
             for i, x in enumerate(LFEEDS[f]):
                 if x: feed.imol[chems[i]] = x
             f0 = arr(feed); fp0 = phase_arrays(feed); TP0 = (feed.T, feed.P)
@@ -596,7 +622,7 @@ class Equil(Base):
         A = arr(st.S['a']); B = arr(st.S['b'])
         det = dict(feed=f0, a=A, b=B)
         fp1 = phase_arrays(feed)
-        if set(fp1) != set(fp0) or any(not close(fp1[p], fp0[p]) for p in fp0) or (feed.T, feed.P) != TP0 or type(feed) is not tmo.Stream:
+        if set(fp1) != set(fp0) or any(not close(fp1[p], fp0[p]) for p in fp0) or (feed.T, feed.P) != TP0 or type(feed) is not feed_type:
             raise Violation('inlet-modified', f'{a[0]} wrapper changed its feed: {fp0} at {TP0} -> {type(feed).__name__} {fp1} at {(feed.T, feed.P)}', match=match, detail=det)
         if not close(A + B, f0, rtol=1e-9):
             raise Violation('balance', f'{a[0]} wrapper: {names[0]} + {names[1]} = {A + B}, feed = {f0} (action {a})', match=match, detail=det,
@@ -892,6 +918,7 @@ class MatBal(Base):
 SYSTEMS = [
     MixSplit('c20.mix_and_split.grid'),
     MixSplit('c20.mix_and_split.reuse', hist=True, depth_q=2, depth_t=3),
+    MixSplit('c20.mix_and_split.reuse.phases', hist=True, phases=True, depth_q=2, depth_t=3),
     Moisture('c20.moisture.grid'),
     Moisture('c20.moisture.repeat', depth_q=2, depth_t=2),
     Moisture('c20.moisture.mixed-kinds', kinds=('sm', 'ms')),
